@@ -147,7 +147,7 @@ func init() {
 			"one ONCE call site per query; no LIMIT; function errors under ASYNC belong to C10/C19; SPIN completion before return is not required (only 'adds no column')",
 			"ASYNC calls appear as direct select-list items (the README rules out ASYNC inside FROM clauses)",
 		},
-		Floor:         []string{"q.plain", "q.async", "q.spinasync", "q.spin", "q.once", "q.await-async", "star", "where", "nested", "shape.union", "shape.cte", "shape.cte-shadow-twice", "shape.multidim", "arg.null", "page", "page.empty", "order.async", "distinct.async", "joinop.derived", "joinop.both", "consumed.where", "consumed.aggregate", "consumed.group", "consumed.join-on", "consumed.in-subquery", "consumed.fnarg", "consumed.cte", "consumed.order", "reexec.async-failure", "builtin.async", "failwait", "lat.zero", "lat.yield", "lat.random", "lat.skewed", "lat.straggler", "table.empty", "imm.async", "imm.spin", "imm.spinasync", "imm.harness", "imm.harness-mixedcase", "imm.registered-late"},
+		Floor:         []string{"q.plain", "q.async", "q.spinasync", "q.spin", "q.once", "q.await-async", "star", "where", "nested", "shape.union", "shape.cte", "shape.cte-shadow-twice", "shape.multidim", "arg.null", "page", "page.empty", "order.async", "distinct.async", "joinop.derived", "joinop.both", "consumed.where", "consumed.aggregate", "consumed.group", "consumed.join-on", "consumed.in-subquery", "consumed.fnarg", "consumed.cte", "consumed.order", "consumed.dual", "failwait.nested", "reexec.async-failure", "shape.cte-nested-twice", "builtin.async", "failwait", "lat.zero", "lat.yield", "lat.random", "lat.skewed", "lat.straggler", "table.empty", "imm.async", "imm.spin", "imm.spinasync", "imm.harness", "imm.harness-mixedcase", "imm.registered-late"},
 		MinNontrivial: 30,
 		Phases: []fw.Phase{
 			{Name: "ledger", N: func(t fw.Tier) int { return pick(t, 2500, 40000) }, Run: func(c *fw.Case) { c14Ledger(c, false) }},
@@ -379,7 +379,10 @@ func c14Ledger(c *fw.Case, race bool) {
 		case "union":
 			sql = sql + " UNION ALL " + sql
 		case "cte":
-			if cteTwice {
+			if cteTwice && c.Idx%4 == 0 {
+				// read twice from inside another CTE whose body has a WITH of its own
+				sql = "WITH a AS (" + sql + "), b AS (WITH z AS (SELECT 1 AS one FROM dual) SELECT * FROM a WHERE rid IN (SELECT rid FROM `<-a`)) SELECT * FROM b"
+			} else if cteTwice {
 				sql = "WITH t1 AS (" + sql + ") SELECT * FROM t1 WHERE rid IN (SELECT rid FROM `<-t1`)"
 			} else {
 				sql = "WITH c1 AS (" + sql + ") SELECT * FROM c1"
@@ -390,7 +393,9 @@ func c14Ledger(c *fw.Case, race bool) {
 	if star {
 		feats = append(feats, "star")
 	}
-	if cteTwice {
+	if cteTwice && c.Idx%4 == 0 {
+		feats = append(feats, "shape.cte-nested-twice")
+	} else if cteTwice {
 		feats = append(feats, "shape.cte-shadow-twice")
 	}
 	if nested {
@@ -987,12 +992,26 @@ func c14FailWait(c *fw.Case) {
 		"SELECT rid, AWAIT(ASYNC.VF(n1, rid, 1)) AS a, ASYNC.VF(n2, rid, 2) AS b, VFAIL(rid) AS f FROM t1",
 		"SELECT rid, SPINASYNC.VF(n1, rid, 1), VFAIL(rid) AS f FROM t1 WHERE n1 >= n1",
 		"WITH c1 AS (SELECT rid, ASYNC.VF(n1, rid, 1) AS a, VFAIL(rid) AS f FROM t1) SELECT * FROM c1",
+		// the calls and the failure inside a nested query: a select-list subquery, EXISTS, a derived table
+		"SELECT rid, (SELECT ASYNC.VF(n1, rid, 1) AS v, VFAIL(rid) AS f FROM `<-t1`) AS s FROM t1",
+		"SELECT rid FROM t1 WHERE EXISTS (SELECT ASYNC.VF(n1, rid, 1) AS v, SPINASYNC.VF(n2, rid, 2), VFAIL(rid) AS f FROM `<-t1`)",
+		"SELECT q.rid FROM (SELECT rid, ASYNC.VF(n1, rid, 1) AS a, SPINASYNC.VF(s1, rid, 2), VFAIL(rid) AS f FROM t1) q",
+		// ... and inside the inner arrays of a multi-dimensional FROM
+		"SELECT rid, ASYNC.VF(n1, rid, 1) AS v, SPINASYNC.VF(n2, rid, 2), VFAIL(rid) AS f FROM mm",
 	})
+	if strings.Contains(sql, "FROM `<-t1`") || strings.Contains(sql, ") q") || strings.Contains(sql, "FROM mm") {
+		c.Feature("failwait.nested")
+	}
 	profile := c14Profiles[1+c.Idx%(len(c14Profiles)-1)]
 	c14Plan(c, profile, []int32{1, 2}, 64)
 	ledgerReset()
 	armFault(k, faultError)
-	o := Run(DocOf(t), sql)
+	fdoc := DocOf(t)
+	if rows := fdoc["t1"].([]any); len(rows) >= 2 {
+		// the same rows spread over inner arrays
+		fdoc["mm"] = []any{rows[:len(rows)/2], rows[len(rows)/2:], []any{}}
+	}
+	o := Run(fdoc, sql)
 	ret := ledgerAppend(evRet, -1, -1)
 	armFault(0, faultNone)
 	// let everything that was started finish, then read the whole ledger
@@ -1051,6 +1070,8 @@ var c14ConsumedForms = []struct {
 	{"consumed.fnarg", "SELECT d.rid, CONCAT(d.v, '!') AS c, ARRAY(d.v) AS a, IF(d.v = d.v, 1, 0) AS e FROM (SELECT rid, %sVF(s1, rid, 1)%s AS v FROM t1) d", false},
 	{"consumed.cte", "WITH d AS (SELECT rid, %sVF(n1, rid, 1)%s AS v FROM t1) SELECT rid, (v + 1) AS w FROM d WHERE v >= %K", false},
 	{"consumed.order", "SELECT d.rid, d.v FROM (SELECT rid, %sVF(n1, rid, 1)%s AS v FROM t1) d ORDER BY d.v DESC, d.rid ASC", false},
+	{"consumed.dual", "SELECT s.d FROM (SELECT %sVF(5, 0, 1)%s AS d FROM dual) s WHERE s.d > 1", false},
+	{"consumed.dual", "SELECT s.d, (s.d + 1) AS e, CONCAT(s.d, '!') AS c FROM (SELECT %sVF(%K, 0, 1)%s AS d FROM dual) s", false},
 }
 
 func c14Consumed(c *fw.Case) {
